@@ -120,8 +120,10 @@ impl Runner for BashRunner {
                     .config
                     .environment
                     .keys()
-                    .filter(|name| is_shell_name(name))
+                    .filter(|name| is_shell_name(name) && *name != "SHELL")
                     .map(|name| name.as_str())
+                    // set for every execution by the runner
+                    .chain(std::iter::once("SHELL"))
                     .collect::<Vec<_>>()
                     .join(" "),
             )
